@@ -55,14 +55,23 @@ FORMS = ["cartesian", "keplerian", "spherical", "equinoctial", "keplerian_mean"]
 # ------------------------------------------------------------------ tables
 
 
-def table(d, level, order=None, nmin=None, nmax=40):
-    """Shape of a table; values are added by the facets."""
+def table(d, level, order=None, nmin=None, nmax=40, warp=False):
+    """Shape of a table; values are added by the facets.  warp=True: a third of the tables are sampled at a step
+    that grows along the table (last step up to twice the first) or at two rates (a range of dates followed by one at
+    2-3 times the step, the example of the iter() docstring): locally mild, but the nodes leave the uniform grid
+    first + k x mean step by several steps."""
     if order is None:
         order = d.int(2, 12) if d.coin() else d.pick(2, 3, 8, 11, 12)
     lo = order if nmin is None else nmin
     n = d.int(lo, min(nmax, lo + 2)) if d.int(0, 2) == 0 else d.int(lo, max(lo, nmax))
     jit = [d.grid(-0.3, 0.3, 600) for _ in range(n)] if d.coin() else []
     t = dict(level=level, order=order, n=n, jit=jit)
+    if warp and d.int(0, 2) == 0:
+        if d.coin():
+            t["warp"] = dict(kind="grow", g=d.u(0.2, 1.0))
+        else:
+            t["warp"] = dict(kind="two-rate", m=d.int(1, max(1, n - 2)), r=d.pick(2.0, 3.0, 1.0 / 3.0, 2.5))
+        t["jit"] = [0.5 * j for j in jit]
     if level == "interp":
         t["x0"] = d.pick(0.0, 58000.0, -1.0) if d.int(0, 3) == 0 else d.u(-1e5, 1e5)
         t["h"] = 10 ** d.u(-4.0, 3.0)
@@ -83,11 +92,21 @@ def abscissae(t):
     """Float abscissae the library will see, and for the Ephem level the (d, s) pairs of the dates."""
     n, h = t["n"], t["h"]
     jit = t["jit"] or [0.0] * n
+    w = t.get("warp")
+
+    def at(i):
+        """position of node i in units of the nominal step (jitter scaled by the local step)"""
+        if not w:
+            return i + jit[i]
+        if w["kind"] == "grow":
+            return i + w["g"] * i * i / (2.0 * max(1, n - 1)) + jit[i] * 1.0
+        return (i + jit[i]) if i <= w["m"] else (w["m"] + w["r"] * (i - w["m"]) + jit[i] * min(1.0, w["r"]))
+
     if t["level"] == "interp":
-        xs = np.array([t["x0"] + h * (i + jit[i]) for i in range(n)])
+        xs = np.array([t["x0"] + h * at(i) for i in range(n)])
         ds = None
     else:
-        ds = [split(t["d0"], t["s0"] + h * (i + jit[i])) for i in range(n)]
+        ds = [split(t["d0"], t["s0"] + h * at(i)) for i in range(n)]
         xs = np.array([d + s / 86400.0 for d, s in ds])
     if not np.all(np.diff(xs) > 0):
         raise RuntimeError("generator produced non-increasing abscissae")
@@ -282,7 +301,7 @@ def qclass(xs, x):
 
 def tclasses(t, extra=()):
     c = [f"level:{t['level']}", "odd-order" if t["order"] % 2 else "even-order",
-         "jittered" if t["jit"] else "uniform"]
+         "jittered" if t["jit"] else "uniform"] + (["warp:" + t["warp"]["kind"]] if t.get("warp") else [])
     if t["n"] == t["order"]:
         c.append("n==order")
     return c + list(extra)
@@ -295,7 +314,7 @@ def tclasses(t, extra=()):
 def node_case(draw, shard, tier):
     d = D(draw)
     level = d.pick("interp", "ephem")
-    t = table(d, level, nmax=24)
+    t = table(d, level, nmax=24, warp=True)
     method = d.pick("lagrange", "lagrange", "linear")
     ncomp = 6 if level == "ephem" else d.pick(1, 6)
     scales = comp_scales(d, level, ncomp)
@@ -344,7 +363,7 @@ def check_node_exact(case):
 def poly_case(draw, shard, tier):
     d = D(draw)
     level = d.pick("interp", "interp", "ephem")
-    t = table(d, level)
+    t = table(d, level, warp=True)
     method = d.pick("lagrange", "lagrange", "lagrange", "linear")
     ncomp = 6 if level == "ephem" else d.pick(1, 6)
     scales = comp_scales(d, level, ncomp)
@@ -475,7 +494,7 @@ def acc_case(draw, shard, tier):
         order = d.pick(4, 6, 8, 8, 9)
     else:
         order = d.int(2, 5) if cls == "loworder" else d.int(2, 12)
-    t = table(d, "ephem", order=order)
+    t = table(d, "ephem", order=order, warp=cls != "nominal")
     if cls == "eccentric":
         e = d.u(0.1, 0.75)
     else:
